@@ -422,3 +422,62 @@ def shell_default_close(i, j):
             return 'harness-no-output'
         return 'ok' if later[:3] == fresh[:3] else 'typed-statement-sees-the-period-of-an-earlier-named-query'
     return native(run)
+
+
+# ---------------------------------------------------------------------------
+# the clauses as written in statement text
+
+TEXT_FORMS = [
+    ('OPEN ON 2019-01-10 CLOSE', (None, datetime.date(2019, 1, 10), True, None)),
+    ('OPEN ON 2019-01-10 CLOSE CLEAR', (None, datetime.date(2019, 1, 10), True, True)),
+    ('OPEN ON 2019-01-10 CLOSE ON 2019-02-01', (None, datetime.date(2019, 1, 10), datetime.date(2019, 2, 1), None)),
+    ('OPEN ON 2019-01-10 CLEAR', (None, datetime.date(2019, 1, 10), None, True)),
+    ('CLOSE', (None, None, True, None)),
+    ('CLOSE CLEAR', (None, None, True, True)),
+    ('CLOSE ON 2019-01-16', (None, None, datetime.date(2019, 1, 16), None)),
+    ('CLEAR', (None, None, None, True)),
+    ('year > 2000 OPEN ON 2019-01-10 CLOSE', ('y', datetime.date(2019, 1, 10), True, None)),
+    ('year > 2000 OPEN ON 2019-01-10 CLOSE CLEAR', ('y', datetime.date(2019, 1, 10), True, True)),
+    ('year > 2000 CLOSE', ('y', None, True, None)),
+    ('year > 2000 CLEAR', ('y', None, None, True)),
+]
+OR_FILTERS = ["year = 2019 OR month = 1", "month = 2 OR day < 6 OR flag = '!'", "NOT (year = 2018 OR month = 2)"]
+
+
+@cond('C13.text', quick=120,
+      bounds=f'skeletons A and B; the {len(TEXT_FORMS)} ways of writing the clauses (bare CLOSE after OPEN, with and without a filter, ...) '
+             'as statement text: the parsed FROM clause carries the clauses written, and the statement returns what the same clauses '
+             f'given as a syntax tree return; and FROM f OPEN .. CLOSE .. CLEAR WHERE c for {len(OR_FILTERS)} filters f with a top-level '
+             'OR / NOT equals FROM OPEN .. CLOSE .. CLEAR WHERE (f) AND c',
+      symbolic='(none)', enumerated='skeleton, form', params={'skb': bool, 'k': int},
+      note='solver-enumerated and executed natively (statement text goes through TatSu)')
+def text_forms(skb, k):
+    k = enum_int(k, 0, len(TEXT_FORMS) + len(OR_FILTERS) - 1)
+    skb = bool(skb)
+
+    def run():
+        entries, _, options = ledger.load(SKELETON_B if skb else SKELETON_A)
+        targets = 'date, flag, account, position'
+
+        def rows_of(stmt):
+            conn = _conn(entries, options)
+            cur = conn.execute(stmt)
+            return [tuple(r) for r in cur.fetchall()]
+        if k < len(TEXT_FORMS):
+            text, (fexpr, d, close, clear) = TEXT_FORMS[k]
+            parsed = beanquery.parser.parse(f'SELECT {targets} FROM {text}')
+            fc = parsed.from_clause
+            if (fc.open, fc.close, fc.clear) != (d, close, clear) or (fc.expression is None) != (fexpr is None):
+                return f'parsed-from-clause-differs-from-the-text: {text}'
+            tree = sel([target(col('date')), target(col('flag')), target(col('account')), target(col('position'))],
+                       from_clause=ast.From(ast.Greater(col('year'), const(2000)) if fexpr else None, d, close, clear))
+            return 'ok' if rows_of(parsed) == rows_of(tree) else f'text-and-tree-differ: {text}'
+        f = OR_FILTERS[k - len(TEXT_FORMS)]
+        period = 'OPEN ON 2019-01-05 CLOSE ON 2019-02-05 CLEAR'
+        c = "account ~ '^(Assets|Liabilities|Expenses)'"
+        got = rows_of(f'SELECT {targets} FROM {f} {period} WHERE {c}')
+        want = rows_of(f'SELECT {targets} FROM {period} WHERE ({f}) AND {c}')
+        if not want:
+            return 'harness-empty-reference'
+        return 'ok' if got == want else f'filter-and-where-not-combined-as-a-conjunction: {f}'
+    return native(run)
